@@ -356,6 +356,7 @@ def gen_overrides(rng, sm, text):
     evs = parse_units(lines)
     res = []
     nontrivial = False
+    gen_overrides.later_sibling = False
     gen_overrides.identity = []       # indices of overrides that address a key with an identity datatype
     for _ in range(rng.randint(1, 4)):
         path = []
@@ -382,6 +383,11 @@ def gen_overrides(rng, sm, text):
             # the section actually selected is the first match in file order
             c = comp.lower()
             sel = next(o for o in kids if (o[3] and o[3] == c) or o[2] == c)
+            if sel is not ch and rng.random() < 0.5:
+                # the rest of the path is written with a LATER sibling of the same type in mind: it
+                # still addresses the first one, which may lack what the path goes on to name
+                sel = ch
+                gen_overrides.later_sibling = True
             lo, hi = sel[0] + 1, (sel[1] - 1 if not sel[4] else sel[0] + 1)
             ctype = sm.types.get(sel[2])
             if ctype is None:
@@ -447,6 +453,8 @@ def run_shard(spec_):
                 continue
             for _o in range(4):
                 overrides, nt = gen_overrides(rng, sm, text)
+                if gen_overrides.later_sibling:
+                    counters["path-written-for-a-later-sibling-of-the-same-type"] += 1
                 res.evaluations += 1
                 kind, fl = compare(ast, sm, schema, text, overrides, extras=(i + _o) % 6 == 0)
                 counters["outcome:" + kind] += 1
